@@ -207,7 +207,8 @@ def double_renders(sh, env, n):
         ansi = rng.random() < 0.5
         verbosity = rng.choice([0, 1, 2, 4])
         if kind == 0:
-            t = Table(getattr(TableStyle, rng.choice(["ascii", "solid", "borderless", "compact"]))())
+            tstyle = getattr(TableStyle, rng.choice(["ascii", "solid", "borderless", "compact"]))()
+            t = Table(tstyle)
             how = (i // 7) % 5
             mk = (lambda cells: tuple(cells)) if how in (1, 3) else (lambda cells: list(cells))
             t.set_header_row(mk(["A", "B", "C"]))
@@ -222,6 +223,16 @@ def double_renders(sh, env, n):
             else:
                 t.add_rows(rows)
                 t.set_row(0, tuple(rows[-1]))
+            styled_table = (i // 7) % 3 == 1
+            if styled_table:
+                ansi = True
+                # cell / header / border styles given as Style objects, some cells carrying tags of their own
+                from clikit.api.formatter import Style
+
+                tstyle.cell_style = Style().fg("red")
+                tstyle.header_cell_style = Style().bold()
+                tstyle.border_style.style = Style().fg("blue")
+                t.set_header_row(mk(["<b>A</b>", "B", "<info>C</info>"]))
             comp, label = t, "Table"
             sh.tag("table_row_styles", ["add_row(list)", "add_row(tuple)", "add_rows(lists)", "set_rows(tuple of tuples)", "set_row(tuple)"][how])
         elif kind == 1:
@@ -237,15 +248,47 @@ def double_renders(sh, env, n):
         else:
             comp, label = ExceptionTrace(an_exception()), "ExceptionTrace"
         outs = []
+        same_io = (i // 3) % 2 == 1 or (kind == 0 and styled_table)  # every render on a new I/O object, or all three on one (a shared Output in both roles for traces)
         try:
+            shared = None
+            if same_io:
+                shared = fresh_io(ansi, width, verbosity)
+                if kind == 6:
+                    from clikit.api.io import IO, Input, Output
+                    from clikit.io.input_stream import StringInputStream
+                    from clikit.io.output_stream import BufferedOutputStream
+
+                    one = Output(BufferedOutputStream(), AnsiFormatter(forced=True) if ansi else PlainFormatter())
+                    one.set_verbosity(verbosity)
+                    shared = IO(Input(StringInputStream("")), one, one)
+                    shared.fetch_output = lambda one=one: one.stream.fetch()
+                    shared.fetch_error = lambda: ""
+                    shared.clear = lambda one=one: one.stream.clear()
             for _ in range(3):
-                io = fresh_io(ansi, width, verbosity)
+                io = shared if same_io else fresh_io(ansi, width, verbosity)
                 comp.render(io)
                 outs.append(io.fetch_output() + io.fetch_error())
+                if same_io:
+                    io.clear() if hasattr(io, "clear") else None
+                    if hasattr(io, "clear_output"):
+                        io.clear_output()
+                        io.clear_error()
+            if same_io and kind != 6:
+                # what is written to the same I/O object afterwards does not depend on what was rendered before
+                probe_text = "probe <info>x</info> and <b>y</b> end"
+                shared.write_line(probe_text)
+                after = shared.fetch_output()
+                ref_io = fresh_io(ansi, width, verbosity)
+                ref_io.write_line(probe_text)
+                sh.count("probes_after_render")
+                if after != ref_io.fetch_output():
+                    sh.violate("render-twice", {"kind": "probe-after-render", "component": label, "width": width, "ansi": ansi, "verbosity": verbosity},
+                               "after rendering %s three times, %r is written as %r on that I/O object and as %r on a new one" % (label, probe_text, after, ref_io.fetch_output()))
         except Exception as e:
             sh.violate("render-raises", {"kind": "double-render", "component": label}, "rendering raised %r" % (e,))
             continue
-        sh.case(("double", label, width, ansi, verbosity), True)
+        sh.case(("double", label, width, ansi, verbosity, same_io), True)
+        sh.tag("render_io", "one I/O object for the three renders" if same_io else "new I/O object per render")
         sh.count("double_renders")
         if outs[0] != outs[1] or outs[1] != outs[2] or not outs[0]:
             sh.violate("render-twice", {"kind": "double-render", "component": label, "width": width, "ansi": ansi, "verbosity": verbosity},
